@@ -33,6 +33,16 @@ the moles the reactant is defined with: -m, which defaults to -m0).  Besides the
  failure of the read-out alone "site-balance SURF() ...".  run() asserts (vacuity) that related rows whose reactant
  moved away from its defined moles and rows of later simulations of a history were judged.
 
+Several charge structures in one SURFACE block (surfaces "sw+u", "u+sw": Hfo_w/Hfo_s of the database + the user-defined
+Oxi_a; "c+g", "g+c": the CD-MUSIC surfaces Cdm + Goe; both orders of the two in the block): the engine keeps one potential
+unknown, one charge-balance row and - with an explicit diffuse layer - one diffuse-layer composition PER charge structure.
+Each structure has its own area and mass (GEOM_SHIFT) and its own capacitance(s) (-ccm / -capacitances after its first site
+type, CAP_FACT).  Every relation below is judged per structure: site balance per site type, mass action with the potential
+of the species' own structure, charge density from the species of the structure (on ITS area) against the charge-potential
+relation at ITS reported potential, and the ion excess of ITS diffuse layer against ITS charge.  Fingerprints of such a block
+carry "surfaces=<sorted names> surface=<the judged one>".  run() asserts (vacuity) that both structures of each pair were
+judged under every model kind and that their potentials differed.
+
 Relations (R1: exactly the statement's):
  (1) site balance: species of each site type sum to the defined sites (scaled by the related phase / kinetic reactant);
  (2) mass action of every surface species: log K(T) from the database text, reported log activities of the aqueous
@@ -40,10 +50,20 @@ Relations (R1: exactly the statement's):
      the reported potential(s) (none for -no_edl; exp(-dz F psi/RT) for DDL / CCM / explicit diffuse layer; the
      three plane potentials with the -cd_music charge distribution for CD-MUSIC);
  (3) charge density from the species = charge/potential relation at the reported potential, 1e-8 relative:
-     Gouy-Chapman with reported MU, EPS_R, TK (default DDL), C*psi (CCM), C1 (psi0-psi1), C2 (psi1-psi2) and the
-     mixed-electrolyte Gouy-Chapman (Grahame) charge at psi2 (CD-MUSIC);
+     Gouy-Chapman with reported MU, EPS_R, TK (default DDL, and -donnan in all variants: the Donnan layer is filled to the
+     Gouy-Chapman charge of the surface potential, integrate.cpp calc_all_donnan; observed worst 8e-9 where decidable;
+     absolute floor: (charge criterion + g-iteration criterion = tolerance x (1 + sum |z| n of the dissolved ions)) x F/A -
+     found on the unchanged tree at I = 1 with minteq.v4.dat: 1.3e-13 eq off = 1.35e-8 of 1e-5 eq), C*psi (CCM),
+     C1 (psi0-psi1), C2 (psi1-psi2) and the mixed-electrolyte Gouy-Chapman (Grahame) charge at psi2 (CD-MUSIC).
+     With -diffuse_layer (Borkovec-Westall integration of the excess, G_TOL-limited; -only_counter_ions truncates it) the
+     Gouy-Chapman deviation is only REPORTED ("gouy-chapman-borkovec(reported)": 5e-4 typical, 0.54 worst); that model is
+     judged through (4);
  (4) explicit diffuse layer (-diffuse_layer, -donnan, with thickness or debye lengths, -only_counter_ions): net charge
-     of the ions reported in the diffuse layer (EDL_SPECIES) + charge of the surface species = 0.
+     of the ions reported in the diffuse layer (EDL_SPECIES) + charge of the surface species = 0;
+ (4b) the same balance on the engine's other read-outs (modes equil / explicit of the phreeqc.dat lattice, where no element
+     is redox-active): EDL(element, surface) summed as charge with formal valences + EDL("charge", surface) (CD-MUSIC:
+     + charge1 + charge2) = 0.  A failure caused by a plane-charge read-out that differs from the plane charge summed from
+     the species is fingerprinted "... wrong=<read-out>".
 
 Tolerances / regime (calibration, R5):
  * The engine stops iterating when the charge residual is below KNOBS -convergence_tolerance taken ABSOLUTELY (C/m2, or
@@ -211,7 +231,21 @@ SURFS = {
     # charge balance has to sum the reference charges of both
     "g": [("Goe_uni", 1.0), ("Goe_tri", 0.78)],
 }
-CDM_SURFS = ("c", "g")
+ONE_SURFS = list(SURFS)         # blocks with ONE charge structure (one surface name before the underscore)
+# blocks with TWO charge structures (surface names Hfo + Oxi, Cdm + Goe), both orders of the two in the block.  The engine
+# keeps one potential unknown, one charge-balance row and - with an explicit diffuse layer - one diffuse-layer composition
+# PER charge structure; each has its own area and mass (geometry GEOMS[(geom + GEOM_SHIFT) % 3]) and, for CCM / CD-MUSIC,
+# its own capacitance(s) (CAPS x CAP_FACT).  Every relation of the statement is judged per charge structure.
+SURFS.update({
+    "sw+u": [("Hfo_w", 1.0), ("Hfo_s", 0.025), ("Oxi_a", 0.5)],
+    "u+sw": [("Oxi_a", 0.5), ("Hfo_w", 1.0), ("Hfo_s", 0.025)],
+    "c+g": [("Cdm_u", 1.0), ("Goe_uni", 0.6), ("Goe_tri", 0.47)],
+    "g+c": [("Goe_uni", 0.6), ("Goe_tri", 0.47), ("Cdm_u", 1.0)],
+})
+TWO_SURFS = ["sw+u", "u+sw", "c+g", "g+c"]
+GEOM_SHIFT = {"Hfo": 0, "Oxi": 1, "Cdm": 0, "Goe": 2}
+CAP_FACT = {"Hfo": 1.0, "Oxi": 0.6, "Cdm": 1.0, "Goe": 1.25}
+CDM_SURFS = ("c", "g", "c+g", "g+c")
 # (sites mol, specific area m2/g, mass g)
 GEOMS = [(2e-4, 600.0, 0.09), (1e-3, 100.0, 1.0), (5e-4, 40.0, 5.0)]
 PHS = [7.0, 5.0, 9.0, 3.0, 11.0]
@@ -262,6 +296,9 @@ DBS = {
 PES = [8.0, 4.0, 0.0]
 CAPS = {"ccm1": 1.0, "ccm2": 0.2, "cdm": (1.0, 0.2), "cdm2": (0.85, 4.0), "cdmdon": (1.0, 0.2)}
 MODES = ["equil", "explicit", "phase", "kin"]
+DONNAN = ("don", "dond", "donoci")          # explicit diffuse layer by the Donnan approximation (non CD-MUSIC)
+# formal valences for summing EDL(element, surface) as charge (modes without a redox-active element: no Fe)
+VALENCE = {"H": 1.0, "O": -2.0, "Na": 1.0, "Cl": -1.0, "Zn": 2.0, "Ca": 2.0, "S": 6.0, "P": 5.0}
 REL_PHASE = "Fe(OH)3(a)"
 PHASE_MOLES = 1e-3
 # mode "kinm": KINETICS with -m different from -m0 (m = mfrac * m0): the sites follow the CURRENT moles m
@@ -314,6 +351,42 @@ def rel_phase(case):
     return REL_PHASE if dbname(case) == DEFAULT_DB else DBS[dbname(case)][1]
 
 
+def block(case):
+    """The site types of the SURFACE block in input order:
+    [(site type, charge structure, defined sites mol, specific area m2/g, mass g, first site type of its charge structure)].
+    In a block with several charge structures each has its own geometry."""
+    sdb = surfdb(dbname(case))
+    sts = SURFS[case["surf"]]
+    multi = len({sdb.surface_name(st) for st, _ in sts}) > 1
+    out, seen = [], set()
+    for st, frac in sts:
+        sn = sdb.surface_name(st)
+        g = case["geom"]
+        if multi:
+            g = (g + GEOM_SHIFT[sn]) % len(GEOMS)
+        sites, area, mass = GEOMS[g]
+        out.append((st, sn, sites * frac, area, mass, sn not in seen))
+        seen.add(sn)
+    return out
+
+
+def caps(case, sn, multi):
+    """Capacitance(s) of charge structure sn (CCM: C; CD-MUSIC: (C1, C2))."""
+    c = CAPS[case["model"]]
+    if not multi:
+        return c
+    f = CAP_FACT[sn]
+    return tuple(x * f for x in c) if isinstance(c, tuple) else c * f
+
+
+def edl_elements(case):
+    """Elements whose EDL(element, surface) read-outs are summed as charge (relation 4b), or None where that sum is not the
+    ion excess (a redox-active element in the system: related FeOOH; other databases)."""
+    if MODELS[case["model"]][1] not in ("dl", "cdmdl") or case["mode"] not in ("equil", "explicit") or dbname(case) != DEFAULT_DB:
+        return None
+    return ["H", "O", "Na", "Cl"] + SORB[case["sorb"]][1]
+
+
 # ------------------------------------------------------------------------------------------------- input text
 def layout(case):
     """Column plan of the USER_PUNCH row for this case (the oracle reads by position)."""
@@ -334,13 +407,11 @@ def layout(case):
         for c, r in sp.lhs + sp.rhs:
             if not db.is_surface(r) and r not in reactants:
                 reactants.append(r)
-    elements = ["H", "Na", "Cl"] + SORB[case["sorb"]][1]
-    return {"sites": sts, "surfaces": names, "species": species, "reactants": reactants, "elements": elements}
+    return {"sites": sts, "surfaces": names, "species": species, "reactants": reactants, "elements": edl_elements(case)}
 
 
 def build_input(case):
     lay = layout(case)
-    sites, area, mass = GEOMS[case["geom"]]
     ph, I, T = case["pH"], case["I"], case.get("T", 25.0)
     mopt, kind = MODELS[case["model"]]
     mode = case["mode"]
@@ -367,27 +438,29 @@ def build_input(case):
         t.append("RATES\n Ferri\n -start\n 10 SAVE 2e-8 * TIME\n -end\n")
         t.append("KINETICS 1\n Ferri\n -formula FeOOH 1\n -m %r\n -m0 %r\n -steps 3600 in 2 steps\n" % (case["mfrac"] * PHASE_MOLES, PHASE_MOLES))
     t.append("SURFACE 1\n")
-    first = True
-    for st, frac in SURFS[case["surf"]]:
-        n = sites * frac
+    multi = len(lay["surfaces"]) > 1
+    for st, sn, n, sarea, smass, first in block(case):
         nm = sdb.masters[st] if mode == "explicit" else st
         if mode == "phase":
             line = " %s %s equilibrium_phase %r" % (nm, relph, n / PHASE_MOLES)
             if first:
-                line += " %r" % (area * mass / PHASE_MOLES)
+                line += " %r" % (sarea * smass / PHASE_MOLES)
         elif mode in ("kin", "kinm"):
             line = " %s Ferri kinetic_reactant %r" % (nm, n / PHASE_MOLES)
             if first:
-                line += " %r" % (area * mass / PHASE_MOLES)
+                line += " %r" % (sarea * smass / PHASE_MOLES)
         else:
             line = " %s %r" % (nm, n)
             if first:
-                line += " %r %r" % (area, mass)
+                line += " %r %r" % (sarea, smass)
         t.append(line + "\n")
         if first and kind in ("cdm", "cdmdl"):
-            t.append(" -capacitances %r %r\n" % CAPS[case["model"]])
-        first = False
-    t.append(mopt)
+            t.append(" -capacitances %r %r\n" % caps(case, sn, multi))
+        if first and kind == "ccm" and multi:
+            # -ccm sets the capacitance of the charge structure read last: one line per charge structure
+            t.append(" -ccm %r\n" % caps(case, sn, multi))
+    if not (kind == "ccm" and multi):
+        t.append(mopt)
     if mode != "explicit":
         t.append(" -equilibrate 1\n")
     t.append("SELECTED_OUTPUT 1\n -reset false\n -simulation true\n -state true\n -high_precision true\n")
@@ -424,6 +497,10 @@ def build_input(case):
         L('FOR i = 1 TO cnt')
         L('PUNCH nm$(i), mo(i)')
         L('NEXT i')
+    if lay["elements"]:
+        # the engine's read-out of the diffuse-layer content by element
+        for s in lay["surfaces"]:
+            L('PUNCH ' + ", ".join('EDL("%s","%s")' % (el, s) for el in lay["elements"]))
     t.append("".join(p))
     if case.get("ctol") is not None:
         # after SELECTED_OUTPUT: "-high_precision true" itself sets the tolerance to 1e-12 when it is read
@@ -480,6 +557,12 @@ def read_row(case, lay, cells):
             n = nx()
             sp[n] = nx()
         o["dl"][s] = {"area": ar, "thick": th, "species": sp}
+    o["dl_el"] = {}
+    if lay["elements"]:
+        for s in lay["surfaces"]:
+            o["dl_el"][s] = {el: nx() for el in lay["elements"]}
+    if any(c is not None for c in it):
+        raise RuntimeError("selected-output row longer than the column plan")
     return o
 
 
@@ -501,7 +584,9 @@ def mode_label(case, seg=0):
 def judge(case, lay, o, tag, problems, diags, stats, seg=0):
     db = surfdb(dbname(case))
     dbtag = "" if dbname(case) == DEFAULT_DB else " db=%s" % dbname(case)
-    sites0, area, mass = GEOMS[case["geom"]]
+    blk = block(case)
+    nsurf = len(lay["surfaces"])
+    # fingerprints of a block with several charge structures name the structures (engine order = sorted) and the judged one
     kind = MODELS[case["model"]][1]
     mode = case["mode"]
     tk = o["tk"]
@@ -525,17 +610,24 @@ def judge(case, lay, o, tag, problems, diags, stats, seg=0):
             # in the initial surface calculation the reactant is not part of the calculation and the surface has the
             # amounts given by the reactant's defined current moles (-m; -m0 when -m is not given)
             scale = case["mfrac"]
-    A = area * mass * scale
     la = o["la"]
+    if nsurf > 1:
+        stats["multi_surface_rows_n"] = stats.get("multi_surface_rows_n", 0) + 1
+        psis = [o["edl"][s]["psi"] for s in lay["surfaces"]]
+        if kind != "noedl" and min(abs(v) for v in psis) > 1e-6 and abs(psis[0] - psis[1]) > 1e-6:
+            stats["multi_surface_distinct_psi_n"] = stats.get("multi_surface_distinct_psi_n", 0) + 1
     for s in lay["surfaces"]:
         sts = [st for st in lay["sites"] if db.surface_name(st) == s]
         edl = o["edl"][s]
+        area, mass = [(a, m) for _, sn, _, a, m, f in blk if sn == s and f][0]
+        A = area * mass * scale
+        stag = "" if nsurf == 1 else " surfaces=%s surface=%s" % ("+".join(sorted(lay["surfaces"])), s)
         ch = [0.0, 0.0, 0.0]          # species-derived charge on planes 0,1,2 [eq] (non CD-MUSIC: all on plane 0)
         chabs = 0.0
-        for st, frac in SURFS[case["surf"]]:
-            if st not in sts:
+        for st, sn, sites_st, _, _, _ in blk:
+            if sn != s:
                 continue
-            defined = sites0 * frac * scale
+            defined = sites_st * scale
             tot = 0.0
             for sp in db.species_of_site(st):
                 n = o["mol"][sp.name] * water
@@ -560,8 +652,8 @@ def judge(case, lay, o, tag, problems, diags, stats, seg=0):
                 # the related phase / kinetic reactant is exhausted: a surface without sites.  Only "species sum to the
                 # defined sites (= 0)" is decidable, on the scale of the sites the definition gives per mole of reactant
                 stats["vanished_n"] = stats.get("vanished_n", 0) + 1
-                if not (tot <= TOL * sites0 * frac):
-                    problems.append(("site-balance vanished-surface model=%s mode=%s" % (kind, mlabel),
+                if not (tot <= TOL * sites_st):
+                    problems.append(("site-balance vanished-surface model=%s mode=%s%s" % (kind, mlabel, stag),
                                      "%s: related reactant has 0 mol, yet species of site type %s sum to %.17g mol" % (tag, st, tot)))
                 continue
             stats["site"] = max(stats.get("site", 0.0), R.rel(tot, defined))
@@ -570,14 +662,14 @@ def judge(case, lay, o, tag, problems, diags, stats, seg=0):
             stats["site-SURF()"] = max(stats.get("site-SURF()", 0.0), R.rel(sf, defined))
             stats["site-SURF()_n"] = stats.get("site-SURF()_n", 0) + 1
             if not (abs(tot - defined) <= TOL * defined):
-                problems.append(("site-balance model=%s mode=%s" % (kind, mlabel),
+                problems.append(("site-balance model=%s mode=%s%s" % (kind, mlabel, stag),
                                  "%s: species of site type %s sum to %.17g mol (SURF(\"%s\",\"%s\") = %.17g mol), defined sites %.17g mol (rel %.3g)%s" % (
-                                     tag, st, tot, st, s, sf, defined, R.rel(tot, defined), related_note(case, sites0 * frac, scale))))
+                                     tag, st, tot, st, s, sf, defined, R.rel(tot, defined), related_note(case, sites_st, scale))))
             elif not (abs(sf - defined) <= TOL * defined):
                 # only the read-out is off (a different mechanism than a wrong number of sites in the calculation)
-                problems.append(("site-balance SURF() model=%s mode=%s" % (kind, mlabel),
+                problems.append(("site-balance SURF() model=%s mode=%s%s" % (kind, mlabel, stag),
                                  "%s: SURF(\"%s\",\"%s\") = %.17g mol, species sum and defined sites %.17g mol (rel %.3g)%s" % (
-                                     tag, st, s, sf, defined, R.rel(sf, defined), related_note(case, sites0 * frac, scale))))
+                                     tag, st, s, sf, defined, R.rel(sf, defined), related_note(case, sites_st, scale))))
             # ---- (2) mass action of every species of this site type
             master = db.masters[st]
             for sp in db.species_of_site(st):
@@ -634,7 +726,7 @@ def judge(case, lay, o, tag, problems, diags, stats, seg=0):
                     kk = "ma_sec[%s %s %s]_n" % (dbname(case), kind, sp.name)
                     stats[kk] = stats.get(kk, 0) + 1
                 if not (err <= TOL):
-                    problems.append(("mass-action model=%s species=%s%s" % (kind, sp.name, dbtag),
+                    problems.append(("mass-action model=%s species=%s%s%s" % (kind, sp.name, dbtag, stag),
                                      "%s: %s: log activity from moles %.15g, from log K(%.2f K)=%.6g, reported activities and potential(s) %.15g (ratio-1 = %.3g)" % (
                                          tag, sp.name, lhs, tk, lk, rhs, err)))
                 # diagnostic: engine's own LA() of the species against mole fraction
@@ -671,15 +763,32 @@ def judge(case, lay, o, tag, problems, diags, stats, seg=0):
             if TOL * max(abs(got), abs(want)) < floor:
                 stats["undecidable_n"] = stats.get("undecidable_n", 0) + 1
             if not (e <= max(TOL * max(abs(got), abs(want)), floor) + slack):
-                problems.append(("charge-law %s model=%s%s" % (name, case["model"] if kind == "dl" else kind, multi),
+                problems.append(("charge-law %s model=%s%s%s" % (name, case["model"] if kind == "dl" else kind, multi, stag),
                                  "%s: surface %s: charge density from species %.17g C/m2, from the charge-potential relation %.17g C/m2 (rel %.3g; psi=%.17g V, mu=%.17g, eps_r=%.17g, T=%.17g K)" % (
                                      tag, s, got, want, r, edl["psi"], o["mu"], o["eps"], tk)))
+        if nsurf > 1 and kind != "noedl":
+            k2 = "surface[%s %s]_n" % (kind, s)
+            stats[k2] = stats.get(k2, 0) + 1
         if kind == "ddl":
             cmp("gouy-chapman", sig[0], R.gouy_chapman_sigma(edl["psi"], o["mu"], o["eps"], tk))
+        elif kind == "dl" and case["model"] in DONNAN:
+            # Donnan approximation: the engine takes the charge the layer has to hold from the Gouy-Chapman relation at
+            # the surface potential (integrate.cpp calc_all_donnan), so Gouy-Chapman is the charge-potential relation of
+            # this model too; the charge criterion of the solver is in eq here (floor x F/A)
+            # plus the g-iteration criterion: the Donnan enrichment factors g(z) count as converged when they move by less
+            # than the convergence tolerance (absolute; calc_all_donnan), i.e. the layer's charge is settled to
+            # tolerance x sum |z| n over the dissolved ions (3 x the charge criterion at I = 1)
+            aq_eq = sum(abs(z) * m for z, m in aqz) * water
+            cmp("gouy-chapman-donnan", sig[0], R.gouy_chapman_sigma(edl["psi"], o["mu"], o["eps"], tk),
+                floor=(floor * (1.0 + aq_eq) + site_floor) * f)
+        elif kind == "dl":
+            # -diffuse_layer (Borkovec-Westall integration): reported, not judged (see the module docstring)
+            gc = R.gouy_chapman_sigma(edl["psi"], o["mu"], o["eps"], tk)
+            stats["gouy-chapman-borkovec(reported)"] = max(stats.get("gouy-chapman-borkovec(reported)", 0.0), R.rel(sig[0], gc))
         elif kind == "ccm":
-            cmp("ccm", sig[0], CAPS[case["model"]] * edl["psi"])
+            cmp("ccm", sig[0], caps(case, s, nsurf > 1) * edl["psi"])
         elif kind in ("cdm", "cdmdl"):
-            c1, c2 = CAPS[case["model"]]
+            c1, c2 = caps(case, s, nsurf > 1)
             cmp("cdmusic-plane0", sig[0], c1 * (edl["psi"] - edl["psi1"]))
             cmp("cdmusic-plane1", sig[0] + sig[1], c2 * (edl["psi1"] - edl["psi2"]))
             if kind == "cdm":
@@ -708,9 +817,38 @@ def judge(case, lay, o, tag, problems, diags, stats, seg=0):
             if TOL * gross < floor + site_floor:
                 stats["undecidable_n"] = stats.get("undecidable_n", 0) + 1
             if not (e <= max(TOL * gross, floor + site_floor) + sl):
-                problems.append(("diffuse-layer-balance model=%s" % case["model"],
+                problems.append(("diffuse-layer-balance model=%s%s" % (case["model"], stag),
                                  "%s: surface %s: charge of surface species %.17g eq, net charge of the ions in the diffuse layer %.17g eq, sum %.3g eq = %.3g of the gross charge %.3g eq" % (
                                      tag, s, stot, q, q + stot, r, gross)))
+            if o["dl_el"]:
+                # ---- (4b) the same balance on the engine's own read-outs: EDL(element, surface) summed as charge
+                # (formal valences) against EDL("charge", surface) (CD-MUSIC: the three plane charges)
+                q2 = 0.0
+                q2abs = 0.0
+                for el, m in o["dl_el"][s].items():
+                    q2 += VALENCE[el] * m
+                    q2abs += abs(VALENCE[el] * m)
+                c2 = edl["charge"] + ((edl["charge1"] + edl["charge2"]) if kind == "cdmdl" else 0.0)
+                e2 = abs(q2 + c2)
+                gross2 = q2abs + chabs
+                sl2 = ULP * gross2
+                r2 = e2 / max(gross2, 1e-300)
+                stats["dl-balance-EDL()"] = max(stats.get("dl-balance-EDL()", 0.0), r2 if (e2 > sl2 and TOL * gross2 >= floor) else 0.0)
+                stats["dl-balance-EDL()_n"] = stats.get("dl-balance-EDL()_n", 0) + 1
+                if not (e2 <= max(TOL * gross2, floor + site_floor) + sl2):
+                    # CD-MUSIC: name the plane-charge read-out(s) that differ from the plane charge summed from the species
+                    # (then the read-out, not the diffuse layer, is what is off: one mechanism whichever structure is hit)
+                    wrong = []
+                    if kind == "cdmdl":
+                        for pl, key in enumerate(("charge", "charge1", "charge2")):
+                            if not (abs(edl[key] - ch[pl]) <= max(TOL * chabs, floor + site_floor) + ULP * chabs):
+                                wrong.append(key)
+                    fp = "diffuse-layer-balance EDL() read-outs model=%s%s" % (case["model"], stag)
+                    if wrong:
+                        fp = "diffuse-layer-balance EDL() read-outs wrong=%s model=%s surfaces=%s" % ("+".join(wrong), case["model"], "+".join(sorted(lay["surfaces"])))
+                    problems.append((fp, "%s: surface %s: EDL(\"charge\"%s) %.17g eq, EDL(element) summed as charge (%s) %.17g eq, sum %.3g eq = %.3g of the gross charge %.3g eq%s" % (
+                        tag, s, " + charge1 + charge2" if kind == "cdmdl" else "", c2, " ".join("%s=%.6g" % kv for kv in o["dl_el"][s].items()), q2, q2 + c2, r2, gross2,
+                        "".join("; EDL(\"%s\") = %.17g eq, from the species of %s on that plane %.17g eq" % (k, edl[k], s, ch[("charge", "charge1", "charge2").index(k)]) for k in wrong))))
         elif kind == "noedl":
             pass
 
@@ -756,7 +894,7 @@ def run_case(case):
             judge(case, lay, o, tag, problems, diags, stats, seg)
             njudged += 1
             e = o["edl"][lay["surfaces"][0]]
-            out_key.append((st, "%.6g" % e["psi"], "%.6g" % o["mu"]))
+            out_key.append((st,) + tuple("%.6g" % o["edl"][sn]["psi"] for sn in lay["surfaces"]) + ("%.6g" % o["mu"],))
             states.append(core.sha(repr((st, ["%.10g" % v for v in o["mol"].values()]))))
             if sample is None:
                 sample = {"case": case, "state": st, "psi": e["psi"], "sigma_reported": e["sigma"], "mu": o["mu"],
@@ -819,7 +957,7 @@ def lattice(**dims):
 def bounds(tier):
     """[(name, cases, dimension sets)]; every bound is a complete Cartesian product (minus the surface/model pairs that do
     not exist: CD-MUSIC models need the CD-MUSIC site type and vice versa), ordered simplest-first."""
-    surf, sorb, model = list(SURFS), list(BASE_SORB), list(MODELS)
+    surf, sorb, model = list(ONE_SURFS), list(BASE_SORB), list(MODELS)
     small = dict(surf=surf, geom=[0], pH=[5.0, 9.0], I=[1e-2, 1.0], sorb=["none", "CaSO4"], model=model, mode=["equil", "kin"])
     out = []
     plain = [m for m in MODELS if MODELS[m][1] not in ("cdm", "cdmdl")]
@@ -852,6 +990,8 @@ def bounds(tier):
                     dict(surf=surf, geom=[0], pH=[7.0, 5.0, 9.0], I=[1e-2, 1.0], sorb=["Zn"], model=model, mode=["phase"],
                          hist=hists("phase", 1), T=[25.0], ctol=[CTOL])))
         out.append(("10 C and 60 C, reduced lattice", dict(small, T=[10.0, 60.0], ctol=[CTOL])))
+        out.append(("two charge structures in one SURFACE block (own area, mass, capacitance each), both orders; initial surface calculation + batch reaction",
+                    dict(surf=TWO_SURFS, geom=[0], pH=PHS, I=IS, sorb=["Zn", "CaSO4"], model=model, mode=["equil", "explicit"], T=[25.0], ctol=[CTOL])))
         out.append(("default convergence tolerance (reported, not judged)", dict(small, T=[25.0], ctol=[1e-8], diag=[1])))
     else:
         d = dict(surf=surf, geom=[0, 1, 2], pH=PHS, I=IS, sorb=sorb, model=model, mode=MODES, T=[25.0], ctol=[CTOL])
@@ -881,6 +1021,10 @@ def bounds(tier):
         out.append(("histories of one keyword with other sorbates and a second geometry",
                     dict(surf=surf, geom=[0, 1], pH=[5.0, 9.0], I=[1e-2, 1.0], sorb=["none", "CaSO4", "PO4"], model=model, mode=["kin", "phase"],
                          hist=hists("common", 1), T=[25.0], ctol=[CTOL])))
+        out.append(("two charge structures in one SURFACE block (own area, mass, capacitance each), both orders, three geometries, every way of bringing the surface in",
+                    dict(surf=TWO_SURFS, geom=[0, 1, 2], pH=PHS, I=IS, sorb=sorb, model=model, mode=MODES, T=[25.0], ctol=[CTOL])))
+        out.append(("two charge structures in one SURFACE block at 10 C and 60 C",
+                    dict(surf=TWO_SURFS, geom=[0], pH=[5.0, 9.0], I=[1e-2, 1.0], sorb=["Zn", "CaSO4"], model=model, mode=["equil", "kin"], T=[10.0, 60.0], ctol=[CTOL])))
         out.append(("default convergence tolerance (reported, not judged)",
                     dict(surf=surf, geom=[0], pH=PHS, I=IS, sorb=["none", "CaSO4"], model=model, mode=["equil", "kin"], T=[25.0], ctol=[1e-8], diag=[1])))
     return [(n, lattice(**d), d) for n, d in out]
@@ -939,6 +1083,9 @@ ASSUMPTIONS = [
     "the engine's site-balance criterion accepts an absolute residual below ineq_tol = 1e-15 mol per site type; for CD-MUSIC surfaces (master species with reference charge) |z master| x 1e-15 eq per site type is added to the absolute floor below which the 1e-8 relative tolerance of the plane-charge relations is not decidable",
     "a surface related to an equilibrium phase / kinetic reactant: defined sites = sites per mole x the moles of the reactant in that calculation (EQUI / KIN); in the initial surface calculation the moles the reactant is defined with (-m, default -m0)",
     "EDL_SPECIES moles are the total moles of each ion in the diffuse-layer water",
+    "EDL(element, surface) summed as charge uses formal valences H +1, O -2, Na +1, Cl -1, Zn +2, Ca +2, S +6, P +5 (only where no other valence state of these elements is present above 1e-18 mol: modes without FeOOH, pe 4)",
+    "-donnan: Gouy-Chapman at the reported surface potential is the model's charge-potential relation (the implementation fills the Donnan layer to that charge); its solver criterion is 1e-13 eq for the charge balance plus 1e-13 x sum |z| n(dissolved ions) for the Donnan enrichment factors, x F/A as a charge density",
+    "a SURFACE block with two charge structures: geometry of structure X = GEOMS[(geom + GEOM_SHIFT[X]) % 3], capacitances = CAPS x CAP_FACT[X]; -ccm is given once per structure (it sets the capacitance of the structure read last)",
     "phreeqc.dat Hfo_w / Hfo_s and the user-defined site types of USER_DB; wateq4f.dat and minteq.v4.dat Hfo_w / Hfo_s with every surface species of the database text; vdrv driver and the Python oracle are trusted",
     "mass action is evaluated with the reaction AS WRITTEN in the database text (reactants e.g. SeO3-2, HSeO3-, H3AsO3, Co+2, Cr(OH)2+, Sn(OH)2 with their reported LA()), dz = charge of the product - charge of the surface reactant; how the engine rewrites the reaction in the master species of the current model (electrons when the element is redox-active) is not used",
 ]
@@ -963,12 +1110,14 @@ def run(tier):
     pool.close()
     judged = sum(a + b for a, b in ev.by_model.values())
     sec_counts = {k[7:-3]: v for k, v in sorted(ev.counts.items()) if k.startswith("ma_sec[")}
-    ev.counts = {k: v for k, v in ev.counts.items() if not k.startswith("ma_sec[")}
+    surf_counts = {k[8:-3]: v for k, v in sorted(ev.counts.items()) if k.startswith("surface[")}
+    ev.counts = {k: v for k, v in ev.counts.items() if not (k.startswith("ma_sec[") or k.startswith("surface["))}
+    ev.extra["two_charge_structures_charge_relations_judged(model kind, charge structure)"] = surf_counts
     ev.extra["secondary_redox_sorbate_mass_action_evaluations"] = sec_counts
     ev.extra["databases"] = {DEFAULT_DB: "Hfo_w, Hfo_s + the user-defined site types",
                              **{k: {"sorbates": v[0], "related_phase": v[1], "pe": PES,
                                     "secondary_redox_master_species(database text)": sorted(surfdb(k).secondary)} for k, v in DBS.items()}}
-    ev.extra["alphabet"] = {"surfaces": {k: [st for st, _ in v] for k, v in SURFS.items()}, "geometries(sites mol, m2/g, g)": GEOMS, "pH": PHS, "I": IS,
+    ev.extra["alphabet"] = {"surfaces": {k: [st for st, _ in v] for k, v in SURFS.items()}, "geometry shift / capacitance factor per charge structure in a two-structure block": [GEOM_SHIFT, CAP_FACT], "geometries(sites mol, m2/g, g)": GEOMS, "pH": PHS, "I": IS,
                             "sorbates": BASE_SORB, "models": {k: " ".join(v[0].split()) or "(default DDL)" for k, v in MODELS.items()},
                             "capacitances": CAPS, "modes": MODES + ["kinm (KINETICS -m = mfrac x -m0)"], "mfrac": MFRACS,
                             "history keywords (one simulation each, between uses of the saved surface)":
@@ -994,9 +1143,17 @@ def run(tier):
             if a == 0:
                 raise SystemExit("HARNESS ERROR: no completed run for %s" % k)
         for rel_n in ("ma_n", "gouy-chapman_n", "ccm_n", "cdmusic-plane0_n", "cdmusic-plane2-diffuse_n", "dl-balance_n", "cdmusic-multisite_n",
-                      "site-SURF()_n", "related_rows_moved_n", "history_rows_n"):
+                      "site-SURF()_n", "related_rows_moved_n", "history_rows_n", "gouy-chapman-donnan_n", "dl-balance-EDL()_n",
+                      "multi_surface_rows_n", "multi_surface_distinct_psi_n"):
             if ev.counts.get(rel_n, 0) < 100:
                 raise SystemExit("HARNESS ERROR: relation %s evaluated %d times" % (rel_n, ev.counts.get(rel_n, 0)))
+        # blocks with two charge structures: BOTH structures of each pair judged under every model kind with a potential
+        for pair, kinds in ((("Hfo", "Oxi"), ("ddl", "ccm", "dl")), (("Cdm", "Goe"), ("cdm", "cdmdl"))):
+            for kd in kinds:
+                for sn in pair:
+                    if surf_counts.get("%s %s" % (kd, sn), 0) < 50:
+                        raise SystemExit("HARNESS ERROR: charge structure %s of a two-structure block judged %d times under %s" % (
+                            sn, surf_counts.get("%s %s" % (kd, sn), 0), kd))
         # database dimension: every surface species of the bound's database whose database reaction contains a secondary
         # redox master species must have been judged under every electrostatic model kind of the bound
         for name, cs, dims in bs:
